@@ -44,13 +44,14 @@ theorem find_after_store (r : Ring) (h : r.WF) (c : BitVec 32) (p : Path) (hfres
 theorem handle_plain (l : Lib) (env : Env) (r : Raw) (w : Watch) (hw : alLookup r.wd l.wdT = some w)
     (hk : ignoredOrUnmount r.mask = false) (hm : test r.mask IN_MOVE_SELF = false)
     (hd : test r.mask IN_DELETE_SELF = false) (hd' : ((r.mask &&& IN_DELETE_SELF) != 0#32) = false)
-    (hop : inotifyNewEventOp r.mask ≠ 0#32) :
+    (hop : inotifyNewEventOp r.mask ≠ 0#32) (hnd : test r.mask IN_ISDIR = false) :
     (l.handle env r).lib = (l.newEvent (nameOf w r) r.mask r.cookie).1 ∧
     (l.handle env r).out.events = [(l.newEvent (nameOf w r) r.mask r.cookie).2] ∧
     (l.handle env r).out.panic = false ∧ (l.handle env r).env = env := by
   unfold Lib.handle
   rw [hw]
   simp only [hk, hm, Bool.false_eq_true, if_false]
+  rw [recurseAfter_nodir _ _ _ _ hnd]
   unfold Lib.afterDeleteSelf Lib.emit
   simp only [hd, hd', Bool.false_eq_true, if_false, Bool.false_and]
   have hne : ¬ ((l.newEvent (nameOf w r) r.mask r.cookie).2.op == 0#32) = true := by
@@ -80,13 +81,15 @@ theorem rename_pair_adjacent (l : Lib) (env : Env) (w1 w2 : Watch) (wd1 wd2 : Na
   have kT3 : test IN_MOVED_TO IN_DELETE_SELF = false := by decide
   have kT4 : ((IN_MOVED_TO &&& IN_DELETE_SELF) != 0#32) = false := by decide
   have kT5 : inotifyNewEventOp IN_MOVED_TO ≠ 0#32 := by decide
+  have kD1 : test IN_MOVED_FROM IN_ISDIR = false := by decide
+  have kD2 : test IN_MOVED_TO IN_ISDIR = false := by decide
   have kO1 : ((IN_MOVED_FROM &&& IN_Q_OVERFLOW) != 0#32) = false := by decide
   have kO2 : ((IN_MOVED_TO &&& IN_Q_OVERFLOW) != 0#32) = false := by decide
-  have h1 := handle_plain l env r1 w1 hw1 kF1 kF2 kF3 kF4 kF5
+  have h1 := handle_plain l env r1 w1 hw1 kF1 kF2 kF3 kF4 kF5 kD1
   obtain ⟨h1l, h1e, h1p, h1env⟩ := h1
   have hwd : (l.newEvent (nameOf w1 r1) r1.mask r1.cookie).1.wdT = l.wdT := (newEvent_tables ..).1
   have h2 := handle_plain (l.handle env r1).lib (l.handle env r1).env r2 w2 (by rw [h1l, hwd]; exact hw2)
-    kT1 kT2 kT3 kT4 kT5
+    kT1 kT2 kT3 kT4 kT5 kD2
   obtain ⟨_, h2e, h2p, _⟩ := h2
   have s1 : l.stepRecord env r1 = l.handle env r1 := by
     unfold Lib.stepRecord
